@@ -482,6 +482,17 @@ func checkCandidate(r *avro.ReadBuf, b []byte) (rejected bool, err error) {
 			}
 		}
 	}
+	// the skip path must classify the candidate the same way
+	r.Reset(b)
+	serr := avro.Int64Codec{}.Skip(r)
+	switch {
+	case rerr != nil && serr == nil:
+		return true, fmt.Errorf("candidate % x: reference says %v, Int64Codec.Skip accepted it", b, rerr)
+	case rerr == nil && serr != nil:
+		return false, fmt.Errorf("candidate % x = %d: Int64Codec.Skip failed: %v", b, v, serr)
+	case rerr == nil && r.Len() != len(b)-n:
+		return false, fmt.Errorf("candidate % x: reference consumed %d bytes, Int64Codec.Skip %d", b, n, len(b)-r.Len())
+	}
 	return rerr != nil, nil
 }
 
